@@ -130,6 +130,24 @@ CLAIMED = {
         technique="contract-based deductive verification on both sides of the encoding: pyvc (ast.parse) + cvc "
                   "(clang AST, loop-body contracts), z3 bit-vector round-trip lemmas",
     ),
+    'C15': dict(
+        category='proof',
+        text="The str -> character-unit writers are verified from the real code including the CPython header code "
+             "they expand: _my_PyUnicode_AsChar16 (loop invariant over a ghost prefix sum of UTF-16 units; every "
+             "write inside the destination; per-iteration contract: a BMP code point incl. U+FFFF gives one unit, "
+             "an astral one its surrogate pair; a terminating zero unit whenever the destination has room), "
+             "_my_PyUnicode_AsChar32 (terminator), _my_PyUnicode_SizeAsChar16 (= number of units), and the four "
+             "zero-unit scans of ffi.string() (stop at the first zero unit, or at maxlen); a lemma gives the "
+             "surrogate round trip per code point.",
+        design_ref='DESIGN.md section 4 C15',
+        note=COMMON_NOTE + "T-U16 (ghost prefix sums) instances; PyUnicode_AsUCS4 assumed. Not in the proved scope: "
+             "convert_array_from_object's sizing branch and the bytes path, the decoders _my_PyUnicode_FromChar16/32, "
+             "ffi.unpack, direct_newp's extra-unit sizing; list-level 'units == utf16(s)' is by induction over the "
+             "per-iteration contract (not mechanised). Lone surrogate pairs in a str are joined by char16_t "
+             "(inherent to UTF-16; recorded in DESIGN.md).",
+        technique="contract-based deductive verification: loop invariants, loop-body/exit contracts and memory-safety "
+                  "obligations on the real C (+ CPython header) code; z3",
+    ),
     'C16': dict(
         category='proof',
         text="Index, slice and pointer-arithmetic functions are verified against the byte model: an array index is "
